@@ -189,6 +189,36 @@ func gen(g *vh.Gen) {
 			g.Emit("scan", st, fmt.Sprint(p), b, in, "-")
 		}
 	}
+	// a delivery still in flight during the scan: its body reader parks after the first chunk (the message is half
+	// way into the store), DoScan runs on the same store — most often the mailbox holds only expired mail, so the
+	// scanner's last removal empties it —, then the rest of the body arrives. Afterwards the new message must be
+	// listed AND its content must be the bytes delivered.
+	for i := 0; i < g.N(12, 400); i++ {
+		p := periods[1+g.Intn(len(periods)-1)]
+		nb := 1 + g.Intn(3)
+		perm := g.Perm(len(pool))
+		var parts []string
+		target := pool[perm[0]]
+		for b := 0; b < nb; b++ {
+			m := 1 + g.Intn(3)
+			allExpired := b == 0 && g.Chance(0.75) || b > 0 && g.Chance(0.4)
+			var ages []string
+			for j := 0; j < m; j++ {
+				a := age(g, p, allExpired || g.Chance(0.5))
+				if a < 0 {
+					a = age(g, p, true)
+				}
+				ages = append(ages, fmt.Sprint(a))
+			}
+			parts = append(parts, vh.HS(pool[perm[b]])+":"+strings.Join(ages, ","))
+		}
+		if g.Chance(0.15) {
+			target = pool[perm[nb]] // a mailbox that does not exist yet
+		}
+		for _, st := range []string{"file", "mem"} {
+			g.Emit("slow", st, fmt.Sprint(p), strings.Join(parts, ";"), vh.HS(target))
+		}
+	}
 	// cancellation at a callback boundary (with and without interference)
 	for i := 0; i < g.N(15, 250); i++ {
 		p := periods[1+g.Intn(len(periods)-1)]
